@@ -1,14 +1,38 @@
 """C10 (MAC family: MacTrace.tla)."""
 from . import macfam, core
+import glob, json, os
 PID = "C10"
+
+
+def window_stats(rep, wd):
+    """distinct (region, uplink modulation, RX1 modulation, RX2 modulation+frequency, RX1 delay) combinations observed"""
+    combos = set()
+    for t in glob.glob(os.path.join(wd, "run*", "mac.*.ndjson")):
+        region = None
+        with open(t) as f:
+            for line in f:
+                e = json.loads(line)
+                if e["ev"] == "reset":
+                    region = e["region"]
+                if e["ev"] != "a_proc":
+                    continue
+                tx = [c for c in e["calls"] if c["c"] == "tx"]
+                rx = [c for c in e["calls"] if c["c"] == "setup_rx" and c.get("mode") == "single"]
+                at = [c["ms"] for c in e["calls"] if c["c"] == "at"]
+                if tx and len(rx) >= 1:
+                    k = (region, tx[0]["rf"]["sf"], tx[0]["rf"]["bw"], rx[0]["rf"]["sf"], rx[0]["rf"]["bw"], rx[0]["rf"]["freq"] != tx[0]["rf"]["freq"],
+                         (rx[1]["rf"]["sf"], rx[1]["rf"]["bw"], rx[1]["rf"]["freq"]) if len(rx) > 1 else None, at[0] - tx[0]["ts"] if at else None)
+                    combos.add(k)
+    return {"window_combinations_observed": len(combos)}
 
 
 def run():
     t = core.tier() == "thorough"
-    return macfam.run(PID, [f"hist={40 if t else 4}", f"steps={70 if t else 45}", "profile=mixed"],
+    return macfam.run(PID, [[f"hist={40 if t else 3}", f"steps={70 if t else 40}", "profile=mixed"],
+                            ["hist=1", "profile=rxwin", f"stride={1 if t else 3}"]],
         'receive window parameters or timing deviate',
-        'seeded random histories; every RX1/RX2/RXC configuration and every timer value (nb TimeoutRequest, async Timer::at) is compared with the windows bound at TX time from Regions.tla (RX1 table, RX2 defaults/overrides, negotiated delays, lead time / offset)',
-        macfam.COMMON_ASSUMPTIONS)
+        'seeded random histories plus a systematic table walk (per region and front-end: ABP, then for every (uplink DR 0..15, RX1 offset 0..7) x RX2 DR x RxDelay x DlChannel mapping a downlink RXParamSetupReq+RXTimingSetupReq+LinkADRReq [+DlChannelReq] followed by observing uplinks, fixed plans walking over the channels by scripted draws; quick: every third tuple); every RX1/RX2/RXC configuration and every timer value (nb TimeoutRequest, async Timer::at) is compared with the windows bound at TX time from Regions.tla (RX1 table, RX2 defaults/overrides, negotiated delays, lead time / offset)',
+        macfam.COMMON_ASSUMPTIONS, extra=[window_stats])
 
 
 def replay(path):
